@@ -108,16 +108,20 @@ def sigkey(sig):
     return json.dumps(sig, sort_keys=True)
 
 
-def pick_for_solo(sigs, per_sig=2, cap=8):
-    """sigs: signature of every suspect case -> indexes to run again alone: up to per_sig per signature, cap in all
-    (signatures in turn, so that every cause gets its chance)."""
+def pick_for_solo(sigs, per_sig=2, cap=120, slow_cap=6):
+    """sigs: signature of every suspect case -> indexes to run again alone: up to per_sig per signature, signatures in
+    turn so that every cause gets its chance; at most slow_cap cases whose verdict is a hang (each costs seconds)."""
     by = {}
     for k, sg in enumerate(sigs):
         by.setdefault(sigkey(sg), []).append(k)
-    picked = []
+    picked, slow = [], 0
     for rnd in range(per_sig):
         for ks in by.values():
             if rnd < len(ks) and len(picked) < cap:
+                expensive = any(w in str(sigs[ks[rnd]].get("what", "")) for w in ("hang", "crash"))
+                if expensive and slow >= slow_cap:
+                    continue
+                slow += expensive
                 picked.append(ks[rnd])
     return sorted(picked)
 
@@ -130,7 +134,7 @@ def confirm_solo(ctx, mode, vecs, bad, sig_of, isbad, tag):
     if not bad:
         return [], 0
     sigs = [sig_of(i) for i in bad]
-    picked = pick_for_solo(sigs, per_sig=3, cap=45)
+    picked = pick_for_solo(sigs)
     cp, out = ctx.path(f"confirm_{tag}.ndjson"), ctx.path(f"confirm_{tag}.out")
     write_ndjson(cp, [vecs[bad[k]] for k in picked])
     ctx.run_bin("yp", [mode, "-solo", "-out", out, cp], timeout=900)
@@ -340,7 +344,7 @@ def run_c07(ctx):
     if suspects:
         # confirm before report: every suspect signature is run again alone (fresh worker process per case, nothing else
         # running, watchdog 20 s, grace 5 s); only what shows again is a violation
-        picked = pick_for_solo([x[1] for x in suspects], per_sig=2, cap=8)
+        picked = pick_for_solo([x[1] for x in suspects])
         cp = ctx.path("confirm7.ndjson")
         write_ndjson(cp, [suspects[k][0] for k in picked])
         v2, r2, f2, _ = c07_round(ctx, [cp], "confirm", hooks, solo=True)
